@@ -1,2 +1,3 @@
 import Props.C05
 import Props.C15
+import Props.C17
